@@ -290,6 +290,46 @@ def _eval_with_ceil(tree, N):
 
 
 # ---------------------------------------------------------------------------
+class _T(object):
+    def __init__(self, test): self.test = test
+
+
+def truth_uses(e, is_subject):
+    """subject nodes whose truth value decides the condition e (e is in a boolean position)"""
+    if is_subject(e): return [e]
+    if isinstance(e, ast.UnaryOp) and isinstance(e.op, ast.Not): return truth_uses(e.operand, is_subject)
+    if isinstance(e, ast.BoolOp): return [x for v in e.values for x in truth_uses(v, is_subject)]
+    return truth_uses_inner(e, is_subject, top_only=True)
+
+
+def truth_uses_inner(e, is_subject, top_only=False):
+    """subjects used as a truth value by an operator that forces one, wherever the expression stands:
+    `not x`, `x and/or y`, bool(x), all((x, ...)), any([x, ...])"""
+    out = []
+    if isinstance(e, ast.UnaryOp) and isinstance(e.op, ast.Not):
+        out += truth_uses(e.operand, is_subject)
+    elif isinstance(e, ast.BoolOp):
+        # the last operand of and/or is passed through, not tested
+        for v in e.values[:-1]: out += truth_uses(v, is_subject)
+    elif isinstance(e, ast.Call) and isinstance(e.func, ast.Name) and e.func.id in ('bool', 'all', 'any') and len(e.args) == 1:
+        a = e.args[0]
+        if e.func.id == 'bool': out += truth_uses(a, is_subject)
+        elif isinstance(a, (ast.Tuple, ast.List, ast.Set)):
+            for x in a.elts: out += truth_uses(x, is_subject)
+        elif isinstance(a, (ast.GeneratorExp, ast.ListComp)) and is_subject_elt(a, is_subject):
+            out += is_subject_elt(a, is_subject)
+    return out
+
+
+def is_subject_elt(comp, is_subject):
+    """all(v for v in (k1, k2, k3)) : the element is the loop variable of a literal tuple of subjects"""
+    g = comp.generators[0]
+    if isinstance(comp.elt, ast.Name) and isinstance(g.target, ast.Name) and comp.elt.id == g.target.id and \
+       isinstance(g.iter, (ast.Tuple, ast.List)):
+        return [x for x in g.iter.elts if is_subject(x)]
+    return []
+
+
 def nonetest_rule(run, fi, tables, rule='NONETEST'):
     """a real-valued field read from a record must be tested for absence with `is None`; a truthiness test
     (`if x:`, `not x`, `x and y`) also fires for a legitimate 0.0 in the file."""
@@ -313,17 +353,15 @@ def nonetest_rule(run, fi, tables, rule='NONETEST'):
             bad = []
 
             def truthy(e):
-                """names used directly as a truth value inside expression e"""
-                if isinstance(e, ast.Name) and e.id in floats: return [e]
-                if isinstance(e, ast.UnaryOp) and isinstance(e.op, ast.Not): return truthy(e.operand)
-                if isinstance(e, ast.BoolOp): return [x for v in e.values for x in truthy(v)]
-                return []
+                return truth_uses(e, lambda z: isinstance(z, ast.Name) and z.id in floats)
             for x in ast.walk(fi.node):
                 tests = []
-                if isinstance(x, (ast.If, ast.While, ast.IfExp)): tests.append(x.test)
-                for t in tests:
-                    for nm in truthy(t):
-                        if nm.lineno >= st.lineno: bad.append((nm, x))
+                if isinstance(x, (ast.If, ast.While, ast.IfExp)): tests.append((x.test, True))
+                elif isinstance(x, ast.comprehension): tests.extend((t, True) for t in x.ifs)
+                elif isinstance(x, ast.expr): tests.append((x, False))
+                for t, is_test in tests:
+                    for nm in (truthy(t) if is_test else truth_uses_inner(t, lambda z: isinstance(z, ast.Name) and z.id in floats)):
+                        if nm.lineno >= st.lineno: bad.append((nm, x if is_test else _T(t)))
             key = '%s :: %s real fields tested for absence with `is None`' % (fi.short, k)
             if bad:
                 nm, x = bad[0]
